@@ -894,20 +894,27 @@ pub open spec fn flag_v_form(sub: bool, lhs: Expression, rhs: Expression) -> Exp
     Expression::Cmpneq(Box::new(sr), Box::new(wide))
 }
 
-/// the five expressions mean result / N / Z / C / V of Arm ARM AddWithCarry(a, b, 0) (ADDS) resp. AddWithCarry(a, NOT(b), 1) (SUBS)
-pub open spec fn nzcv_ok(sub: bool, lv: EvalR, rv: EvalR, result: Expression, n: Expression, z: Expression, c: Expression, v: Expression, env: Env) -> bool {
+/// the value Arm ARM AddWithCarry(a, y, cin) gives to item k: 0 = N, 1 = Z, 2 = C, 3 = V (1-bit values), 4 = the result
+pub open spec fn awc_item(k: int, w: nat, a: nat, y: nat, cin: nat) -> nat {
+    if k == 0 { awc_n(w, a, y, cin) } else if k == 1 { awc_z(w, a, y, cin) } else if k == 2 { awc_c(w, a, y, cin) } else if k == 3 { awc_v(w, a, y, cin) }
+    else { awc_result(w, a, y, cin) }
+}
+
+/// expression `e` means item k (N / Z / C / V / result) of AddWithCarry(a, b, 0) (ADDS) resp. AddWithCarry(a, NOT(b), 1) (SUBS)
+/// on the operand values lv, rv
+pub open spec fn flag_ok(k: int, sub: bool, lv: EvalR, rv: EvalR, e: Expression, env: Env) -> bool {
     match (lv, rv) {
         (EvalR::Val(w, a), EvalR::Val(w2, b)) => ({
-            let y = awc_y(w, b, sub);
-            let cin = awc_cin(sub);
-            &&& eval_spec(result, env) matches EvalR::Val(wr, res) && res == awc_result(w, a, y, cin)
-            &&& eval_spec(n, env) == EvalR::Val(1, awc_n(w, a, y, cin))
-            &&& eval_spec(z, env) == EvalR::Val(1, awc_z(w, a, y, cin))
-            &&& eval_spec(c, env) == EvalR::Val(1, awc_c(w, a, y, cin))
-            &&& eval_spec(v, env) == EvalR::Val(1, awc_v(w, a, y, cin))
+            let want = awc_item(k, w, a, awc_y(w, b, sub), awc_cin(sub));
+            if k == 4 { eval_spec(e, env) matches EvalR::Val(wr, res) && res == want } else { eval_spec(e, env) == EvalR::Val(1, want) }
         }),
         _ => true,
     }
+}
+
+/// the five expressions mean result / N / Z / C / V of Arm ARM AddWithCarry(a, b, 0) (ADDS) resp. AddWithCarry(a, NOT(b), 1) (SUBS)
+pub open spec fn nzcv_ok(sub: bool, lv: EvalR, rv: EvalR, result: Expression, n: Expression, z: Expression, c: Expression, v: Expression, env: Env) -> bool {
+    flag_ok(4, sub, lv, rv, result, env) && flag_ok(0, sub, lv, rv, n, env) && flag_ok(1, sub, lv, rv, z, env) && flag_ok(2, sub, lv, rv, c, env) && flag_ok(3, sub, lv, rv, v, env)
 }
 
 pub proof fn lemma_flags_eval(sub: bool, lhs: Expression, rhs: Expression, cz: Constant, env: Env)
@@ -947,6 +954,63 @@ pub proof fn lemma_flags_eval(sub: bool, lhs: Expression, rhs: Expression, cz: C
     }
 }
 
+/// result, C and V need no constant of the code: the same fact with a zero constant made up in the proof
+pub proof fn lemma_flags_eval_rcv(sub: bool, lhs: Expression, rhs: Expression, env: Env)
+    requires expr_wf(lhs), expr_wf(rhs), expr_bits(lhs) == expr_bits(rhs), 1 <= expr_bits(lhs) <= 64, env_sorted(env),
+    ensures
+        flag_ok(4, sub, eval_spec(lhs, env), eval_spec(rhs, env), addsub_form(sub, lhs, rhs), env),
+        flag_ok(2, sub, eval_spec(lhs, env), eval_spec(rhs, env), flag_c_form(sub, lhs, rhs), env),
+        flag_ok(3, sub, eval_spec(lhs, env), eval_spec(rhs, env), flag_v_form(sub, lhs, rhs), env),
+{
+    broadcast use axiom_biguint_of;
+    let cz = Constant { value: biguint_of(0), bits: expr_bits(lhs) as usize };
+    lemma_pow2_pos(expr_bits(lhs));
+    assert(cz.wf());
+    lemma_flags_eval(sub, lhs, rhs, cz, env);
+}
+
+// ---- the KNOWN DEFECT C03-D1, pinned (NOT part of the property; see subs.ensures.carry_d1_pin) ---------------------------------
+/// the expression /repo builds for c in subs: (zext72(result) != zext72(lhs) - zext72(rhs)) = the BORROW
+pub open spec fn borrow_c_form(lhs: Expression, rhs: Expression) -> Expression {
+    let zr = Expression::Zext(72, Box::new(addsub_form(true, lhs, rhs)));
+    let wide = addsub_form(true, Expression::Zext(72, Box::new(lhs)), Expression::Zext(72, Box::new(rhs)));
+    Expression::Cmpneq(Box::new(zr), Box::new(wide))
+}
+pub open spec fn borrow_ok(lv: EvalR, rv: EvalR, e: Expression, env: Env) -> bool {
+    match (lv, rv) { (EvalR::Val(w, a), EvalR::Val(w2, b)) => eval_spec(e, env) == EvalR::Val(1, b2n(a < b)), _ => true }
+}
+pub open spec fn borrow_block_ok(ops: Seq<bad64::Operand>, x: AArch64Register, b: Block, env: Env) -> bool {
+    borrow_ok(load_val(ops[1], x.bits as nat, env), load_val(ops[2], x.bits as nat, env), assign_src(b, 2), env)
+}
+/// the source assigned to c is, in every state, the borrow of the unsigned subtraction (the documented defect C03-D1)
+pub open spec fn borrow_block(ops: Seq<bad64::Operand>, x: AArch64Register, b: Block) -> bool {
+    forall|env: Env| env_sorted(env) ==> #[trigger] borrow_block_ok(ops, x, b, env)
+}
+
+pub proof fn lemma_borrow_eval(lhs: Expression, rhs: Expression, env: Env)
+    requires expr_wf(lhs), expr_wf(rhs), expr_bits(lhs) == expr_bits(rhs), 1 <= expr_bits(lhs) <= 64, env_sorted(env),
+    ensures borrow_ok(eval_spec(lhs, env), eval_spec(rhs, env), borrow_c_form(lhs, rhs), env),
+{
+    let w = expr_bits(lhs);
+    let result = addsub_form(true, lhs, rhs);
+    let zl = Expression::Zext(72, Box::new(lhs)); let zr = Expression::Zext(72, Box::new(rhs)); let zres = Expression::Zext(72, Box::new(result));
+    let zwide = addsub_form(true, zl, zr);
+    lemma_eval_wf_val(lhs, env);
+    lemma_eval_wf_val(rhs, env);
+    let el = eval_spec(lhs, env); let er = eval_spec(rhs, env);
+    assert(eval_spec(result, env) == bin_spec(BinOp::Sub, el, er));
+    assert(eval_spec(zl, env) == zext_spec(72, el)); assert(eval_spec(zr, env) == zext_spec(72, er)); assert(eval_spec(zres, env) == zext_spec(72, eval_spec(result, env)));
+    assert(eval_spec(zwide, env) == bin_spec(BinOp::Sub, eval_spec(zl, env), eval_spec(zr, env)));
+    assert(eval_spec(borrow_c_form(lhs, rhs), env) == bin_spec(BinOp::Cmpneq, eval_spec(zres, env), eval_spec(zwide, env)));
+    if let EvalR::Val(wa, a) = el {
+        if let EvalR::Val(wb, b) = er {
+            lemma_nzcv_values(w, a, b, true);
+            lemma_addsub_cases(w, a, b, true);
+            reveal(bv_cmpeq); reveal(bv_cmpneq);
+        }
+    }
+}
+
 /// DECODER CONTRACT for the three-operand integer arithmetic instructions: operand 0 is a plain integer register (W / X /
 /// SP / ZR form), operands 1 and 2 are loadable sources that come out at the destination's width
 pub open spec fn int_dst(opr: bad64::Operand) -> bool {
@@ -969,21 +1033,24 @@ pub open spec fn assign_dst(b: Block, k: int) -> Scalar { match b.instructions@[
 pub open spec fn assign_src(b: Block, k: int) -> Expression { match b.instructions@[k].operation { Operation::Assign { dst, src } => src, _ => arbitrary() } }
 pub open spec fn is_assign(b: Block, k: int) -> bool { b.instructions@[k].operation is Assign }
 
-/// the block ADDS / SUBS emit: n := N; z := Z; c := C; v := V (FIRST, while the sources still hold their old values), then
-/// full(Rd) := result - with result / NZCV those of AddWithCarry on the values of operands 1 and 2
-pub open spec fn nzcv_block_ok(ops: Seq<bad64::Operand>, sub: bool, x: AArch64Register, b: Block, env: Env) -> bool {
-    nzcv_ok(sub, load_val(ops[1], x.bits as nat, env), load_val(ops[2], x.bits as nat, env),
-        assign_src(b, 4), assign_src(b, 0), assign_src(b, 1), assign_src(b, 2), assign_src(b, 3), env)
-}
-
-pub open spec fn nzcv_block(ops: Seq<bad64::Operand>, sub: bool, x: AArch64Register, b: Block) -> bool {
+/// the block ADDS / SUBS emit: n := ..; z := ..; c := ..; v := .. (FIRST, while the sources still hold their old values), then
+/// full(Rd) := ..  (structure only; the MEANING of the five sources is stated item by item: flag_block)
+pub open spec fn nzcv_struct(x: AArch64Register, b: Block) -> bool {
     &&& b.instructions@.len() == 5
     &&& is_assign(b, 0) && is_assign(b, 1) && is_assign(b, 2) && is_assign(b, 3) && is_assign(b, 4)
     &&& assign_dst(b, 0) == named_scalar("n"@, 1) && assign_dst(b, 1) == named_scalar("z"@, 1)
     &&& assign_dst(b, 2) == named_scalar("c"@, 1) && assign_dst(b, 3) == named_scalar("v"@, 1)
     &&& assign_dst(b, 4) == reg_scalar(x.full_rec())
     &&& expr_bits(assign_src(b, 4)) == x.full_rec().bits
-    &&& forall|env: Env| env_sorted(env) ==> #[trigger] nzcv_block_ok(ops, sub, x, b, env)
+}
+
+/// the source of instruction k of that block (k = 0..3: n z c v, k = 4: the destination) means item k of AddWithCarry on the values
+/// of operands 1 and 2
+pub open spec fn flag_block_ok(k: int, ops: Seq<bad64::Operand>, sub: bool, x: AArch64Register, b: Block, env: Env) -> bool {
+    flag_ok(k, sub, load_val(ops[1], x.bits as nat, env), load_val(ops[2], x.bits as nat, env), assign_src(b, k), env)
+}
+pub open spec fn flag_block(k: int, ops: Seq<bad64::Operand>, sub: bool, x: AArch64Register, b: Block) -> bool {
+    forall|env: Env| env_sorted(env) ==> #[trigger] flag_block_ok(k, ops, sub, x, b, env)
 }
 
 /// the instruction graph after a straight-line instruction was lifted: one new block, which is entry and exit
@@ -1008,7 +1075,13 @@ pub open spec fn one_block(c0: ControlFlowGraph, c1: ControlFlowGraph) -> bool {
     ensures
         /*@rejected*/ r is Err <==> (dst_rec(instruction.ops@[0]) is None || load_rejected(instruction.ops@[1]) || load_rejected(instruction.ops@[2])),
         /*@graph*/ r is Ok ==> one_block(*old(control_flow_graph), *final(control_flow_graph)),
-        /*@nzcv*/ r is Ok ==> nzcv_block(instruction.ops@, false, dst_rec(instruction.ops@[0]).unwrap(), final(control_flow_graph).graph.vertices@[old(control_flow_graph).next_index]),
+        // n, z, c, v are assigned BEFORE the destination (which may alias a source); then, item by item, Arm ARM AddWithCarry:
+        /*@block*/ r is Ok ==> nzcv_struct(dst_rec(instruction.ops@[0]).unwrap(), final(control_flow_graph).graph.vertices@[old(control_flow_graph).next_index]),
+        /*@result*/ r is Ok ==> flag_block(4, instruction.ops@, false, dst_rec(instruction.ops@[0]).unwrap(), final(control_flow_graph).graph.vertices@[old(control_flow_graph).next_index]),
+        /*@negative*/ r is Ok ==> flag_block(0, instruction.ops@, false, dst_rec(instruction.ops@[0]).unwrap(), final(control_flow_graph).graph.vertices@[old(control_flow_graph).next_index]),
+        /*@zero*/ r is Ok ==> flag_block(1, instruction.ops@, false, dst_rec(instruction.ops@[0]).unwrap(), final(control_flow_graph).graph.vertices@[old(control_flow_graph).next_index]),
+        /*@carry*/ r is Ok ==> flag_block(2, instruction.ops@, false, dst_rec(instruction.ops@[0]).unwrap(), final(control_flow_graph).graph.vertices@[old(control_flow_graph).next_index]),
+        /*@overflow*/ r is Ok ==> flag_block(3, instruction.ops@, false, dst_rec(instruction.ops@[0]).unwrap(), final(control_flow_graph).graph.vertices@[old(control_flow_graph).next_index]),
 //@ enter
     proof { broadcast use crate::strmap::axiom_into_string_str; lemma2_to64(); reveal(store_pre); }
 //@ after 0 `let bits = operand_storing_width(&instruction.operands()[0])?;`
@@ -1023,31 +1096,48 @@ pub open spec fn one_block(c0: ControlFlowGraph, c1: ControlFlowGraph) -> bool {
 //@ after 0 `let rhs = operand_load(block, &instruction.operands()[2], bits)?;`
     let ghost lhs0 = lhs;
     let ghost rhs0 = rhs;
+    proof { lemma_expr_wf_bits(lhs0); }
 //@ before 0 `block.assign(il::scalar("n", 1), n);`
     let ghost (n0, z0, c0, v0, result0) = (n, z, c, v, result);
-    proof {
-        let cz = rhs_of(n0)->Constant_0;
-        assert(rhs_of(z0)->Constant_0.value@ == 0);
-        if n0 == flag_n_form(false, lhs0, rhs0, cz) && z0 == flag_z_form(false, lhs0, rhs0, rhs_of(z0)->Constant_0) && c0 == flag_c_form(false, lhs0, rhs0) && v0 == flag_v_form(false, lhs0, rhs0)
-            && result0 == addsub_form(false, lhs0, rhs0) {
-            assert forall|env: Env| env_sorted(env) implies #[trigger] nzcv_ok(false, eval_spec(lhs0, env), eval_spec(rhs0, env), result0, n0, z0, c0, v0, env) by {
-                lemma_flags_eval(false, lhs0, rhs0, cz, env);
-                lemma_flags_eval(false, lhs0, rhs0, rhs_of(z0)->Constant_0, env);
-            }
-        }
-    }
 //@ before 0 `block.index()`
     proof {
         let b = *block;
         let ops = instruction.ops@;
-        // (guarded by the SHAPE of the five expressions: a changed formula then fails the named postcondition `nzcv`, not this proof block)
-        if n0 == flag_n_form(false, lhs0, rhs0, rhs_of(n0)->Constant_0) && z0 == flag_z_form(false, lhs0, rhs0, rhs_of(z0)->Constant_0) && c0 == flag_c_form(false, lhs0, rhs0) && v0 == flag_v_form(false, lhs0, rhs0)
-            && result0 == addsub_form(false, lhs0, rhs0) && b.instructions@.len() == 5 && assign_src(b, 0) == n0 && assign_src(b, 1) == z0 && assign_src(b, 2) == c0 && assign_src(b, 3) == v0 {
-            assert forall|env: Env| env_sorted(env) implies #[trigger] nzcv_block_ok(ops, false, x, b, env) by {
-                assert(load_ok(ops[1], bits as nat, lhs0, env));
-                assert(load_ok(ops[2], bits as nat, rhs0, env));
-                assert(write_ok(x, result0, assign_src(b, 4), env));
-                assert(nzcv_ok(false, eval_spec(lhs0, env), eval_spec(rhs0, env), result0, n0, z0, c0, v0, env));
+        let czn = rhs_of(n0)->Constant_0;
+        let czz = rhs_of(z0)->Constant_0;
+        // Each item is guarded by the SHAPE of its expression and its position in the block: a changed formula then fails exactly
+        // the named postcondition of that item (result / negative / zero / carry / overflow), not this proof block.
+        if b.instructions@.len() == 5 && expr_wf(lhs0) && expr_wf(rhs0) && expr_bits(lhs0) == bits && expr_bits(rhs0) == bits {
+            if result0 == addsub_form(false, lhs0, rhs0) {
+                assert forall|env: Env| env_sorted(env) implies #[trigger] flag_block_ok(4, ops, false, x, b, env) by {
+                    assert(load_ok(ops[1], bits as nat, lhs0, env)); assert(load_ok(ops[2], bits as nat, rhs0, env));
+                    assert(write_ok(x, result0, assign_src(b, 4), env));
+                    lemma_flags_eval_rcv(false, lhs0, rhs0, env);
+                }
+            }
+            if n0 == flag_n_form(false, lhs0, rhs0, czn) && assign_src(b, 0) == n0 && czn.wf() && czn.bits == bits && czn.value@ == 0 {
+                assert forall|env: Env| env_sorted(env) implies #[trigger] flag_block_ok(0, ops, false, x, b, env) by {
+                    assert(load_ok(ops[1], bits as nat, lhs0, env)); assert(load_ok(ops[2], bits as nat, rhs0, env));
+                    lemma_flags_eval(false, lhs0, rhs0, czn, env);
+                }
+            }
+            if z0 == flag_z_form(false, lhs0, rhs0, czz) && assign_src(b, 1) == z0 && czz.wf() && czz.bits == bits && czz.value@ == 0 {
+                assert forall|env: Env| env_sorted(env) implies #[trigger] flag_block_ok(1, ops, false, x, b, env) by {
+                    assert(load_ok(ops[1], bits as nat, lhs0, env)); assert(load_ok(ops[2], bits as nat, rhs0, env));
+                    lemma_flags_eval(false, lhs0, rhs0, czz, env);
+                }
+            }
+            if c0 == flag_c_form(false, lhs0, rhs0) && assign_src(b, 2) == c0 {
+                assert forall|env: Env| env_sorted(env) implies #[trigger] flag_block_ok(2, ops, false, x, b, env) by {
+                    assert(load_ok(ops[1], bits as nat, lhs0, env)); assert(load_ok(ops[2], bits as nat, rhs0, env));
+                    lemma_flags_eval_rcv(false, lhs0, rhs0, env);
+                }
+            }
+            if v0 == flag_v_form(false, lhs0, rhs0) && assign_src(b, 3) == v0 {
+                assert forall|env: Env| env_sorted(env) implies #[trigger] flag_block_ok(3, ops, false, x, b, env) by {
+                    assert(load_ok(ops[1], bits as nat, lhs0, env)); assert(load_ok(ops[2], bits as nat, rhs0, env));
+                    lemma_flags_eval_rcv(false, lhs0, rhs0, env);
+                }
             }
         }
     }
@@ -1067,7 +1157,17 @@ pub open spec fn one_block(c0: ControlFlowGraph, c1: ControlFlowGraph) -> bool {
     ensures
         /*@rejected*/ r is Err <==> (dst_rec(instruction.ops@[0]) is None || load_rejected(instruction.ops@[1]) || load_rejected(instruction.ops@[2])),
         /*@graph*/ r is Ok ==> one_block(*old(control_flow_graph), *final(control_flow_graph)),
-        /*@nzcv*/ r is Ok ==> nzcv_block(instruction.ops@, true, dst_rec(instruction.ops@[0]).unwrap(), final(control_flow_graph).graph.vertices@[old(control_flow_graph).next_index]),
+        // n, z, c, v are assigned BEFORE the destination (which may alias a source); then, item by item, Arm ARM AddWithCarry:
+        /*@block*/ r is Ok ==> nzcv_struct(dst_rec(instruction.ops@[0]).unwrap(), final(control_flow_graph).graph.vertices@[old(control_flow_graph).next_index]),
+        /*@result*/ r is Ok ==> flag_block(4, instruction.ops@, true, dst_rec(instruction.ops@[0]).unwrap(), final(control_flow_graph).graph.vertices@[old(control_flow_graph).next_index]),
+        /*@negative*/ r is Ok ==> flag_block(0, instruction.ops@, true, dst_rec(instruction.ops@[0]).unwrap(), final(control_flow_graph).graph.vertices@[old(control_flow_graph).next_index]),
+        /*@zero*/ r is Ok ==> flag_block(1, instruction.ops@, true, dst_rec(instruction.ops@[0]).unwrap(), final(control_flow_graph).graph.vertices@[old(control_flow_graph).next_index]),
+        /*@carry*/ r is Ok ==> flag_block(2, instruction.ops@, true, dst_rec(instruction.ops@[0]).unwrap(), final(control_flow_graph).graph.vertices@[old(control_flow_graph).next_index]),
+        // REGRESSION PIN of the listed known finding C03-D1 (not part of the property, weakens nothing: `carry` above stays the claim):
+        // the source assigned to c is EITHER the Arm carry OR, uniformly in every state, the documented borrow - any third formula fails here
+        /*@carry_d1_pin*/ r is Ok ==> (flag_block(2, instruction.ops@, true, dst_rec(instruction.ops@[0]).unwrap(), final(control_flow_graph).graph.vertices@[old(control_flow_graph).next_index])
+            || borrow_block(instruction.ops@, dst_rec(instruction.ops@[0]).unwrap(), final(control_flow_graph).graph.vertices@[old(control_flow_graph).next_index])),
+        /*@overflow*/ r is Ok ==> flag_block(3, instruction.ops@, true, dst_rec(instruction.ops@[0]).unwrap(), final(control_flow_graph).graph.vertices@[old(control_flow_graph).next_index]),
 //@ enter
     proof { broadcast use crate::strmap::axiom_into_string_str; lemma2_to64(); reveal(store_pre); }
 //@ after 0 `let bits = operand_storing_width(&instruction.operands()[0])?;`
@@ -1082,31 +1182,54 @@ pub open spec fn one_block(c0: ControlFlowGraph, c1: ControlFlowGraph) -> bool {
 //@ after 0 `let rhs = operand_load(block, &instruction.operands()[2], bits)?;`
     let ghost lhs0 = lhs;
     let ghost rhs0 = rhs;
+    proof { lemma_expr_wf_bits(lhs0); }
 //@ before 0 `block.assign(il::scalar("n", 1), n);`
     let ghost (n0, z0, c0, v0, result0) = (n, z, c, v, result);
-    proof {
-        let cz = rhs_of(n0)->Constant_0;
-        assert(rhs_of(z0)->Constant_0.value@ == 0);
-        if n0 == flag_n_form(true, lhs0, rhs0, cz) && z0 == flag_z_form(true, lhs0, rhs0, rhs_of(z0)->Constant_0) && c0 == flag_c_form(true, lhs0, rhs0) && v0 == flag_v_form(true, lhs0, rhs0)
-            && result0 == addsub_form(true, lhs0, rhs0) {
-            assert forall|env: Env| env_sorted(env) implies #[trigger] nzcv_ok(true, eval_spec(lhs0, env), eval_spec(rhs0, env), result0, n0, z0, c0, v0, env) by {
-                lemma_flags_eval(true, lhs0, rhs0, cz, env);
-                lemma_flags_eval(true, lhs0, rhs0, rhs_of(z0)->Constant_0, env);
-            }
-        }
-    }
 //@ before 0 `block.index()`
     proof {
         let b = *block;
         let ops = instruction.ops@;
-        // (guarded by the SHAPE of the five expressions: a changed formula then fails the named postcondition `nzcv`, not this proof block)
-        if n0 == flag_n_form(true, lhs0, rhs0, rhs_of(n0)->Constant_0) && z0 == flag_z_form(true, lhs0, rhs0, rhs_of(z0)->Constant_0) && c0 == flag_c_form(true, lhs0, rhs0) && v0 == flag_v_form(true, lhs0, rhs0)
-            && result0 == addsub_form(true, lhs0, rhs0) && b.instructions@.len() == 5 && assign_src(b, 0) == n0 && assign_src(b, 1) == z0 && assign_src(b, 2) == c0 && assign_src(b, 3) == v0 {
-            assert forall|env: Env| env_sorted(env) implies #[trigger] nzcv_block_ok(ops, true, x, b, env) by {
-                assert(load_ok(ops[1], bits as nat, lhs0, env));
-                assert(load_ok(ops[2], bits as nat, rhs0, env));
-                assert(write_ok(x, result0, assign_src(b, 4), env));
-                assert(nzcv_ok(true, eval_spec(lhs0, env), eval_spec(rhs0, env), result0, n0, z0, c0, v0, env));
+        let czn = rhs_of(n0)->Constant_0;
+        let czz = rhs_of(z0)->Constant_0;
+        // Each item is guarded by the SHAPE of its expression and its position in the block: a changed formula then fails exactly
+        // the named postcondition of that item (result / negative / zero / carry / overflow), not this proof block.
+        if b.instructions@.len() == 5 && expr_wf(lhs0) && expr_wf(rhs0) && expr_bits(lhs0) == bits && expr_bits(rhs0) == bits {
+            if result0 == addsub_form(true, lhs0, rhs0) {
+                assert forall|env: Env| env_sorted(env) implies #[trigger] flag_block_ok(4, ops, true, x, b, env) by {
+                    assert(load_ok(ops[1], bits as nat, lhs0, env)); assert(load_ok(ops[2], bits as nat, rhs0, env));
+                    assert(write_ok(x, result0, assign_src(b, 4), env));
+                    lemma_flags_eval_rcv(true, lhs0, rhs0, env);
+                }
+            }
+            if n0 == flag_n_form(true, lhs0, rhs0, czn) && assign_src(b, 0) == n0 && czn.wf() && czn.bits == bits && czn.value@ == 0 {
+                assert forall|env: Env| env_sorted(env) implies #[trigger] flag_block_ok(0, ops, true, x, b, env) by {
+                    assert(load_ok(ops[1], bits as nat, lhs0, env)); assert(load_ok(ops[2], bits as nat, rhs0, env));
+                    lemma_flags_eval(true, lhs0, rhs0, czn, env);
+                }
+            }
+            if z0 == flag_z_form(true, lhs0, rhs0, czz) && assign_src(b, 1) == z0 && czz.wf() && czz.bits == bits && czz.value@ == 0 {
+                assert forall|env: Env| env_sorted(env) implies #[trigger] flag_block_ok(1, ops, true, x, b, env) by {
+                    assert(load_ok(ops[1], bits as nat, lhs0, env)); assert(load_ok(ops[2], bits as nat, rhs0, env));
+                    lemma_flags_eval(true, lhs0, rhs0, czz, env);
+                }
+            }
+            if c0 == flag_c_form(true, lhs0, rhs0) && assign_src(b, 2) == c0 {
+                assert forall|env: Env| env_sorted(env) implies #[trigger] flag_block_ok(2, ops, true, x, b, env) by {
+                    assert(load_ok(ops[1], bits as nat, lhs0, env)); assert(load_ok(ops[2], bits as nat, rhs0, env));
+                    lemma_flags_eval_rcv(true, lhs0, rhs0, env);
+                }
+            }
+            if c0 == borrow_c_form(lhs0, rhs0) && assign_src(b, 2) == c0 {
+                assert forall|env: Env| env_sorted(env) implies #[trigger] borrow_block_ok(ops, x, b, env) by {
+                    assert(load_ok(ops[1], bits as nat, lhs0, env)); assert(load_ok(ops[2], bits as nat, rhs0, env));
+                    lemma_borrow_eval(lhs0, rhs0, env);
+                }
+            }
+            if v0 == flag_v_form(true, lhs0, rhs0) && assign_src(b, 3) == v0 {
+                assert forall|env: Env| env_sorted(env) implies #[trigger] flag_block_ok(3, ops, true, x, b, env) by {
+                    assert(load_ok(ops[1], bits as nat, lhs0, env)); assert(load_ok(ops[2], bits as nat, rhs0, env));
+                    lemma_flags_eval_rcv(true, lhs0, rhs0, env);
+                }
             }
         }
     }
